@@ -81,7 +81,6 @@ macro "pres_tac" : tactic => `(tactic|
     the opcode-0 second slot of a wide load) -/
 def writesDst (opc : BitVec 8) : Prop := WF.isStore opc = false ∧ WF.isXadd opc = false ∧ opc ≠ 0
 
-set_option maxHeartbeats 1000000 in
 theorem exec_next_cases (env : Env) (s s' : State) (insn : Insn) (h : exec env s insn = .next s') :
     (insn.opc = 0x85 ∧ insn.src = 1 ∧ callLocal s insn.imm = .next s') ∨
     (insn.opc = 0x95 ∧ exitInsn s = .next s') ∨
@@ -460,4 +459,27 @@ theorem call_return_r10 (env : Env) (hro : R10ReadOnly env.prog) (s s1 s2 : Stat
   subst hnil
   simp only [List.length_nil, usum] at hsum
   rw [hr]; simp at hsum; simp [hsum]
+/-! ### a concrete program for the non-vacuity examples -/
+namespace Ex7
+/-- `0: mov r6,5  1: call 3  2: exit  3: mov r6,7  4: call 6  5: exit  6: mov r7,9  7: exit` -/
+def prog : Bytes := #[0xb7,6,0,0,5,0,0,0, 0x85,0x10,0,0,1,0,0,0, 0x95,0,0,0,0,0,0,0,
+  0xb7,6,0,0,7,0,0,0, 0x85,0x10,0,0,1,0,0,0, 0x95,0,0,0,0,0,0,0, 0xb7,7,0,0,9,0,0,0, 0x95,0,0,0,0,0,0,0]
+def env : Env := { prog := prog, helpers := fun _ => none, allowed := [], usage := stackUsage prog none }
+/-- the state in which the call at pc 1 is executed: r6 = 5, r7 = 1, r10 = 0x3200, return address 2 -/
+def s : State := { reg := #v[0, 0, 0, 0, 0, 0, 5, 1, 0, 0, 0x3200], pc := 2, frames := [],
+                   usage := Vector.replicate 8 256, mem := default, log := [] }
+
+theorem r10ReadOnly : R10ReadOnly env.prog := by
+  intro pc insn h h10
+  have hpc : pc < 8 := by
+    unfold getInsn? at h
+    split at h
+    · cases h
+    · rename_i hs; simp [env, prog] at hs; omega
+  have : pc = 0 ∨ pc = 1 ∨ pc = 2 ∨ pc = 3 ∨ pc = 4 ∨ pc = 5 ∨ pc = 6 ∨ pc = 7 := by omega
+  rcases this with rfl | rfl | rfl | rfl | rfl | rfl | rfl | rfl <;>
+    (simp [getInsn?, env, prog] at h; subst h; revert h10; decide)
+end Ex7
+
 end Rbpf
+
